@@ -99,6 +99,37 @@ func main() {
 			abs, _ := filepath.Abs(filepath.Join(keyDir, name))
 			replace[abs] = dst
 		}
+		if u.as != "" && u.as != u.dir {
+			// building another tree in place of the overlaid one: map every other source file
+			only := map[string]bool{}
+			for _, n := range strings.Split(*osOnly, ",") {
+				only[n] = true
+			}
+			have := map[string]bool{}
+			if ents, err := os.ReadDir(u.dir); err == nil {
+				for _, e := range ents {
+					n := e.Name()
+					if e.IsDir() || !strings.HasSuffix(n, ".go") || strings.HasSuffix(n, "_test.go") {
+						continue
+					}
+					have[n] = true
+					if !only[n] {
+						abs, _ := filepath.Abs(filepath.Join(u.as, n))
+						src, _ := filepath.Abs(filepath.Join(u.dir, n))
+						replace[abs] = src
+					}
+				}
+			}
+			if ents, err := os.ReadDir(u.as); err == nil {
+				for _, e := range ents {
+					n := e.Name()
+					if !e.IsDir() && strings.HasSuffix(n, ".go") && !strings.HasSuffix(n, "_test.go") && !have[n] {
+						abs, _ := filepath.Abs(filepath.Join(u.as, n))
+						replace[abs] = ""
+					}
+				}
+			}
+		}
 		units = nil
 		addOverlayFiles(flag.Args()[0], replace)
 	}
